@@ -49,12 +49,14 @@ Definition rsv3Bit : N := Z.to_N websocket_rsv3Bit.
 Definition maskBit : N := Z.to_N websocket_maskBit.
 Definition rsvMask : N := N.lor rsv1Bit (N.lor rsv2Bit rsv3Bit).
 
-(* isControl, isData, validReceivedCloseCodes and isValidReceivedCloseCode are the bodies the
-   translator regenerates from conn.go on every run (Gen_websocket.v) *)
+(* isControl and isData are the bodies the translator regenerates from conn.go on every run
+   (Gen_websocket.v) *)
 Definition unres (r : res bool) : bool := match r with Ok b => b | _ => false end.
 Definition is_control (t : Z) : bool := unres (websocket_isControl t).
 Definition is_data (t : Z) : bool := unres (websocket_isData t).
-Definition is_valid_received_close_code (code : Z) : bool := unres (websocket_isValidReceivedCloseCode code).
+(* the close-code predicate is located by its role (the func(int) bool advanceFrame applies to the
+   decoded status), whatever its name, file and shape: tools/repo2coq/gen_wsread.go *)
+Definition is_valid_received_close_code (code : Z) : bool := websocket_close_code_valid code.
 
 (* ------------------------------------------------------------------ errors and state *)
 Inductive rerr :=
